@@ -647,7 +647,7 @@ func nativeReplay(o *Obligation, verifDir, dir string, cases []replayCase) ([]st
 		b, _ := json.Marshal(batch)
 		os.WriteFile(lp, b, 0o644)
 		targs := []string{"test", "-vet=off", "-count=1", "-overlay", op, "-run", "^TestVerifReplay$", "-timeout", "60s", "-v"}
-		env := append(os.Environ(), "GOFLAGS=-mod=mod", "GOPROXY=off", "GOSUMDB=off", "GOTOOLCHAIN=local", "VERIF_REPLAY="+lp)
+		env := ov.goEnv("VERIF_REPLAY=" + lp)
 		if o.NativeRace {
 			targs = append(targs, "-race")
 			env = append(env, "VERIF_REPEAT=300")
